@@ -8,6 +8,9 @@ p, v); the Lean model must reproduce the line exactly (values bit for bit).
 from harness import dptlib as D
 from harness.cases.C07 import payload_specs
 
+import copy
+
+from harness.lib.poison import poison
 PROPERTY = "C08"
 MODULES = ["XknxVerif.Props.C08"]
 DRIVE_PROCS = 8
@@ -56,6 +59,9 @@ def roundtrip(cls, k, data):
         return f"{cv}>{st2}", f"decoded value {v!r} is refused by to_knx ({st2})"
     nan32 = D.FAM[cls.__name__] == "f32"
     cp2 = D.payload_canon(p2, nan32)
+    # history independence (harness/lib/poison.py): the first decoded value is overwritten before the payload is decoded again
+    v, spoiled = copy.deepcopy(v), v
+    poison(spoiled)
     st3, v2 = D.decode(cls, p2)
     if st3 != "ok":
         return f"{cv}>{cp2}>{st3}", f"decoded value {v!r} re-encodes to {cp2} which from_knx refuses ({st3})"
